@@ -21,6 +21,8 @@ VOCABS = {
     'cp-link': ('ConnectionPoint', 'Link'),
     'node-comp': ('NetworkNode', 'Component'),
     'node-ns-cp': ('NetworkNode', 'NetworkService', 'ConnectionPoint'),
+    # two model classes one of whose names is contained in the other's
+    'link-clink': ('Link', 'CompositeLink'),
 }
 IDS = ['a', 'b', 'c', 'd', 'e']
 
@@ -396,6 +398,8 @@ def run(report):
             for n in (1, 2, 3):
                 cases += list(all_graphs(vocab, n))
         cases += list(all_graphs('node-ns-cp', 3))
+        for n in (2, 3):
+            cases += list(all_graphs('link-clink', n))
         # n = 4: one two-class vocabulary, all edge labellings, class assignments up to node renaming (5 x 729)
         cases += list(all_graphs('cp-link', 4, sorted_classes=True))
         space = ('all graphs n<=3 over 3 two-class vocabularies and the three-class vocabulary; n=4 (cp-link): all 729 edge '
@@ -407,6 +411,8 @@ def run(report):
         for n in (3, 4):
             cases += list(all_graphs('node-ns-cp', n))
         cases += list(all_graphs('cp-link', 5, max_edges=5))
+        for n in (2, 3):
+            cases += list(all_graphs('link-clink', n))
         space = 'all graphs n<=4 over all four vocabularies; n=5 (cp-link) restricted to <=5 edges'
     g = explore_cases(report, 'graphs', eval_graph, cases, chunk=16,
                       rule='typed graphs (class per node, relation per node pair) x every query argument tuple on both '
